@@ -1,3 +1,19 @@
-import LocustModel.Proto
-/- Driver stub for C13 (replaced when the property's model is built). -/
-def main : IO Unit := LM.Proto.runDriver fun _ => "?\t?"
+import LocustModel.Store.Proto
+/-
+  Driver for C13.  Input: a history line (see `LocustModel/Store/Proto.lean`) whose column names come from the
+  C13 name pool.  Output:  <model dump> TAB <spec dump> [TAB compaction-null-loss]
+    (third field: classifier of the open C07 finding — a compaction merged rows containing a NULL cell)
+    spec dump: every table / column ever ingested listed exactly once (`MT=`, `MC<t>=`, column list of `T<t>=`),
+    cells of columns a batch did not mention are NULL.
+-/
+namespace LM.DrvC13
+open LM.Proto LM.Store.Drv
+
+def step (line : String) : String :=
+  match runLine line with
+  | none => "bad-op\tbad-op"
+  | some (s, _) => dumpModel s ++ "\t" ++ dumpSpec s ++ (if s.nullCompacted then "\tcompaction-null-loss" else "")
+
+end LM.DrvC13
+
+def main : IO Unit := LM.Proto.runDriver LM.DrvC13.step
